@@ -46,7 +46,7 @@ def count_digits(items):
     return tot
 
 
-def gen_body(rng, n, depth, visible, budget, allow_measure=True, pred=None, cond_blocks=False):
+def gen_body(rng, n, depth, visible, budget, allow_measure=True, pred=None, cond_blocks=False, cond_index=False, meas_conf=False):
     """visible: set of key names measured earlier in enclosing scopes (bindable as extern).
     cond_blocks: also generate classically controlled blocks ("CB": a measurement-free CircuitOperation under
     with_classical_controls), controls inside measurement-free bodies, and key maps that rename control keys."""
@@ -57,7 +57,7 @@ def gen_body(rng, n, depth, visible, budget, allow_measure=True, pred=None, cond
         r = rng.random()
         if r < 0.22 and depth > 0:
             sub_allow = allow_measure and rng.random() < 0.7
-            body = gen_body(rng, n, depth - 1, visible | local, budget, sub_allow, pred, cond_blocks)
+            body = gen_body(rng, n, depth - 1, visible | local, budget, sub_allow, pred, cond_blocks, cond_index, meas_conf)
             unitary = _is_unitary_items(body)
             reps_choices = [0, 1, 2, 3, -1, -2] if unitary else [0, 1, 1, 2, 2, 3]
             reps = int(reps_choices[int(rng.integers(len(reps_choices)))])
@@ -98,6 +98,10 @@ def gen_body(rng, n, depth, visible, budget, allow_measure=True, pred=None, cond
                     local.add(blk["kmap"].get(nm, nm))
         elif r < 0.42 and allow_measure and budget[0] > 0:
             name = ["a", "b", "c", "d"][int(rng.integers(4))]
+            if cond_index and (visible | local) and rng.random() < 0.5:
+                # measure an already measured key again, so that record indices other than -1 mean something
+                again = sorted(visible | local)
+                name = again[int(rng.integers(len(again)))]
             k = KEY_WIDTH[name]
             if k > n or budget[0] < k:
                 continue
@@ -105,6 +109,10 @@ def gen_body(rng, n, depth, visible, budget, allow_measure=True, pred=None, cond
             st = {"t": "M", "key": name, "w": wires}
             if rng.random() < 0.25:
                 st["mask"] = tuple(bool(b) for b in rng.integers(0, 2, size=k))
+            if meas_conf and rng.random() < 0.35:
+                # a readout confusion map on some of the measured qubits (part of the gate, must survive every re-keying)
+                sub = tuple(sorted(int(x) for x in rng.choice(k, size=int(rng.integers(1, k + 1)), replace=False)))
+                st["conf"] = {sub: P._conf_matrix(rng, 2 ** len(sub))}
             budget[0] -= k
             items.append(st)
             local.add(name)
@@ -112,28 +120,41 @@ def gen_body(rng, n, depth, visible, budget, allow_measure=True, pred=None, cond
             names = sorted(visible | local)
             name = names[int(rng.integers(len(names)))]
             inner = P.gen_unitary_step(rng, dims, pred, arity_w=(0.0, 0.7, 0.3, 0.0))
-            cond = {"t": "key", "key": name, "index": -1}
-            if rng.random() < 0.3:
-                cond = {"t": "sympy_eq", "key": name, "dims": (2,) * KEY_WIDTH[name], "const": int(rng.integers(0, 2 ** KEY_WIDTH[name]))}
+            cond = _gen_cond(rng, name, cond_index)
             items.append({"t": "C", "cond": cond, "inner": inner})
         elif cond_blocks and r < 0.65 and depth > 0 and (visible | local):
             # a classically controlled sub-circuit; Cirq refuses measurements below a classical control
             names = sorted(visible | local)
             name = names[int(rng.integers(len(names)))]
-            body = gen_body(rng, n, depth - 1, visible | local, budget, False, pred, True)
+            body = gen_body(rng, n, depth - 1, visible | local, budget, False, pred, True, cond_index, meas_conf)
             blk = {"t": "B", "body": body, "reps": int([1, 1, 2, 3, 0][int(rng.integers(5))]), "ids": None, "use_ids": None, "qmap": {}, "kmap": {}}
             if rng.random() < 0.3:
                 perm = [int(x) for x in rng.permutation(n)]
                 blk["qmap"] = {w: perm[w] for w in range(n) if perm[w] != w}
             if rng.random() < 0.5:
                 _rename_extern_control(rng, blk, body, visible | local)
-            cond = {"t": "key", "key": name, "index": -1}
-            if rng.random() < 0.3:
-                cond = {"t": "sympy_eq", "key": name, "dims": (2,) * KEY_WIDTH[name], "const": int(rng.integers(0, 2 ** KEY_WIDTH[name]))}
+            cond = _gen_cond(rng, name, cond_index)
             items.append({"t": "CB", "cond": cond, "blk": blk})
         else:
             items.append(P.gen_unitary_step(rng, dims, pred, arity_w=(0.03, 0.55, 0.37, 0.05)))
     return items
+
+
+def _gen_cond(rng, name, cond_index):
+    """a condition on key `name`; with cond_index also conditions that pick an earlier record of the key (index != -1)
+    and bit-mask conditions.  Whether the index exists at run time is decided on the flat program (flat_index_errors)."""
+    r = rng.random()
+    if r < 0.3:
+        return {"t": "sympy_eq", "key": name, "dims": (2,) * KEY_WIDTH[name], "const": int(rng.integers(0, 2 ** KEY_WIDTH[name]))}
+    if not cond_index:
+        return {"t": "key", "key": name, "index": -1}
+    index = int([-1, -1, 0, 0, -2, 1][int(rng.integers(6))])
+    if r < 0.55:
+        k = KEY_WIDTH[name]
+        bm = [None, None, 1, (1 << k) - 1, 1 << (k - 1), 2][int(rng.integers(6))]
+        return {"t": "bitmask", "key": name, "index": index, "target_value": int(rng.integers(0, 2 ** k)),
+                "equal_target": bool(rng.random() < 0.6), "bitmask": bm}
+    return {"t": "key", "key": name, "index": index}
 
 
 def _rename_extern_control(rng, blk, body, outer_visible):
@@ -335,6 +356,37 @@ def flat_keys(flat):
 
 def flat_unbound_controls(flat):
     return sorted({keystr(c["ckey"]) for s in flat for c in _ctrl_refs(s) if not c["bound"]})
+
+
+def flat_index_errors(flat):
+    """control references whose record index does not exist when the step runs (measurements are never themselves
+    classically controlled in these programs, so the number of records of a key before a step is static)"""
+    bad = []
+    count = {}
+    for s in flat:
+        for c in _ctrl_refs(s):
+            idx = c["cond"].get("index", -1)
+            have = count.get(keystr(c["ckey"]), 0)
+            if (idx >= 0 and idx >= have) or (idx < 0 and -idx > have):
+                bad.append((keystr(c["ckey"]), idx, have))
+        if s["t"] == "M":
+            count[keystr(s["key"])] = count.get(keystr(s["key"]), 0) + 1
+    return bad
+
+
+def flat_indexed_controls(flat):
+    """number of control references that read a record other than the latest one of their key"""
+    n = 0
+    count = {}
+    for s in flat:
+        for c in _ctrl_refs(s):
+            idx = c["cond"].get("index", -1)
+            have = count.get(keystr(c["ckey"]), 0)
+            if have >= 2 and idx not in (-1, have - 1):
+                n += 1
+        if s["t"] == "M":
+            count[keystr(s["key"])] = count.get(keystr(s["key"]), 0) + 1
+    return n
 
 
 def flat_control_keys(flat):
